@@ -311,6 +311,12 @@ impl<'s> Scheduler<'s> {
                     });
                     _ = CANCEL_COROUTINES.remove(&co_id);
                     warn!("Cancel coroutine:{} successfully !", co_id);
+                    // report the drop to the listeners as a cancellation
+                    // (ready -> running -> cancelled), otherwise e.g. a pool
+                    // never learns that one of its workers is gone
+                    if coroutine.running().is_ok() {
+                        _ = coroutine.cancel();
+                    }
                     continue;
                 }
                 cfg_if::cfg_if! {
